@@ -53,6 +53,11 @@ def obj_bytes(n, seed):
     return random.Random(seed * 7919 + n).randbytes(n)
 
 
+def s_obj(s):
+    """the representation of scenario s (corpus scenarios may spell it out as body_hex)"""
+    return bytes.fromhex(s["body_hex"]) if "body_hex" in s else obj_bytes(s["size"], s["seed"])
+
+
 # ------------------------------------------------------------------ an independent reading of RFC 9110 14.1.2 / 14.2
 def parse_range_header(text):
     """-> list of ('fl', a, b) | ('from', a) | ('suffix', n), or None when the header must be ignored"""
@@ -234,7 +239,7 @@ def to_case(s):
     limit = {"hit": 0, "dhit": 0, "mnone": -1, "mzero": 0, "mlim": LIMIT}[mode]
     k0 = 4096 if mode == "dhit" else 0
     return "rr.run %s %s %s %s %d %d %s %s %d %s" % (
-        opt_hex(s.get("range")), hexs(obj_bytes(s["size"], s["seed"])), opt_hex(CT if s.get("ctype") else None), hexs(KEY),
+        opt_hex(s.get("range")), hexs(s_obj(s)), opt_hex(CT if s.get("ctype") else None), hexs(KEY),
         hit, limit, opt_hex(s.get("if_range")), opt_hex(s.get("etag")), k0,
         ",".join(map(str, s["chunks"])) if s["chunks"] else "-")
 
@@ -258,6 +263,8 @@ def _spec(s):
     if s.get("etag"):
         hs.append(["ETag", s["etag"]])
     sp = {"headers": hs, "xbody": [s["size"], s["seed"]]}
+    if "body_hex" in s:
+        sp = {"headers": hs, "body_b64": base64.b64encode(s_obj(s)).decode()}
     if s.get("splits"):
         sp["splits"] = s["splits"]
         sp["split_delay"] = 0.004
@@ -273,7 +280,7 @@ def _prime(args):
     org = _state["org"]
     url = org.url(_spec(s), rid)
     r, raw = lab.get(_squid_for(s["mode"]).port, url)
-    if r is None or r.status != 200 or not r.complete or r.body != obj_bytes(s["size"], s["seed"]):
+    if r is None or r.status != 200 or not r.complete or r.body != s_obj(s):
         return "prime-failed %s" % (r.status if r else "none")
     return None
 
@@ -416,7 +423,7 @@ def oracle(s, obs):
     if p is None:
         return ("oracle:no-transaction", "the transaction did not complete: " + obs[:120])
     status, cl, cr, ct, body = p
-    obj = obj_bytes(s["size"], s["seed"])
+    obj = s_obj(s)
     clen = len(obj)
     specs = parse_range_header(s["range"]) if s.get("range") is not None else None
     want = satisfiable(specs, clen) if specs else []
